@@ -19,20 +19,19 @@ Proof. reflexivity. Qed.
 Lemma frag_sample_bounds b :
   sample_bounds b =
   if rb_sample_not_memopt (memopt b) then (0, rb_upper_bound (full b) (cap b) (pos b))
-  else if rb_sample_full_branch (full b) then (1, cap b) else (0, pos b).
+  else if full b then (1, cap b) else (0, pos b).
 Proof.
-  unfold sample_bounds, rb_sample_not_memopt, rb_sample_full_branch, rb_upper_bound.
+  unfold sample_bounds, rb_sample_not_memopt, rb_upper_bound.
   destruct (memopt b); destruct (full b); reflexivity.
 Qed.
 
+(* d = the value drawn by whichever randint call the taken branch makes *)
 Lemma frag_idx_of_draw b d :
   idx_of_draw b d =
   if rb_sample_not_memopt (memopt b) then rb_base_index d
-  else if rb_sample_full_branch (full b) then rb_memopt_full_index d (pos b) (cap b)
-  else rb_memopt_notfull_index d.
+  else rb_memopt_index (full b) d d (pos b) (cap b).
 Proof.
-  unfold idx_of_draw, rb_sample_not_memopt, rb_sample_full_branch, rb_base_index,
-    rb_memopt_full_index, rb_memopt_notfull_index.
+  unfold idx_of_draw, rb_sample_not_memopt, rb_base_index, rb_memopt_index.
   destruct (memopt b); destruct (full b); reflexivity.
 Qed.
 
